@@ -20,3 +20,15 @@ Proof. exact unfixed_swallows_data. Qed.
 
 Print Assumptions C15_negotiation.
 Print Assumptions C15_unfixed_refuted.
+
+(* ---- the byte handler is the source's: handleControlCharResponse translated statement by
+   statement on this run (gen/decide.go -> GeneratedSkel.telnet_handle_code) ---- *)
+From Scrapli Require Import DecideLang GeneratedSkel Decide.
+
+(* for every control buffer and every byte (writes succeeding) the translated function changes
+   control buffer, data buffer and replies exactly as the model's [handle] *)
+Theorem C15_handle_is_source : forall s c,
+  option_map (tel_apply s c) (tel_run (tel_tests_of s c)) = Some (handle s c).
+Proof. exact telnet_handle_is_source. Qed.
+
+Print Assumptions C15_handle_is_source.
